@@ -1,13 +1,34 @@
-"""C12 -- every expression has the width its construction dictates (see exprpass.py)."""
-from amc import exprpass
+"""C12 -- every expression has the width its construction dictates (see exprpass.py),
+plus the tiling of register values in a live mapper under whole/partial/one-bit writes (state machine of c13)."""
+from amc import exprpass, core
+from amc.core import Failure
 from amc.checks import c01
 
 PID = "C12"
 
 
 def run(tier, seed):
-    return c01.run(tier, seed, PID)
+    rep = c01.run(tier, seed, PID)
+    from amc.checks import c13
+    depth = 3 if tier == "quick" else 4
+    res = core.pmap(c13.mapper_shard, [(depth, k, 32, "C12") for k in range(32)])
+    tot = {"histories": 0, "invariants": 0}
+    for r in res:
+        for k in tot:
+            tot[k] += r["stats"][k]
+        for f in r["fails"]:
+            rep.add(Failure.from_json(f))
+    rep.coverage["states"] += tot["histories"]
+    rep.coverage["transitions"] += tot["invariants"]
+    rep.coverage["evaluations"] += tot["invariants"]
+    rep.coverage["live_mapper"] = dict(tot, depth=depth, rule="every history of whole, byte and one-bit register writes on one mapper: "
+                                       "after each write the register value has the register width and its parts tile it")
+    return rep
 
 
 def replay(case):
+    if "mapper_history" in case:
+        from amc.checks import c13
+        fl, _ = c13.m_run([tuple(o) for o in case["mapper_history"]])
+        return [Failure(sig, what, case) for (pid, sig, what) in fl if pid == PID]
     return exprpass.replay_case(case, PID)
